@@ -247,13 +247,21 @@ def watcher_retained(ctx):
             fl = L.prov.flows_forward(t["dest"]["local"])
             stored = [(x, st) for (x, st) in L.aggregates("TargetActorHandleSet") if any(operand_local(o) in fl for o in st["rv"]["ops"])]
             ctx.check(bool(stored), f"{lab}/kept", [site(L, x) for x, _ in stored] or [site(L, bb)], "the watcher is dropped after construction: watching stops at once")
+            def stored_in_registry(B, local, depth=0):
+                """insert sites (body, block) of the registry's map that receive `local`, following returns to the callers"""
+                fl2 = B.prov.flows_forward(local)
+                out = [(B, cb) for cb, ct in B.calls()
+                       if callee_decl(ct).endswith("::insert") and "TargetActorHandleSet" in callee_decl(ct) and len(ct["args"]) > 2 and operand_local(ct["args"][2]) in fl2]
+                if not out and 0 in fl2 and depth < 3:
+                    for (cb2, bb2, t2) in r.callers_of(B):
+                        if t2.get("dest") is not None:
+                            out += stored_in_registry(cb2, t2["dest"]["local"], depth + 1)
+                return out
             kept = False
             for (x, st) in stored:
-                fl2 = L.prov.flows_forward(st["lhs"]["local"])
-                for cb, ct in L.calls():
-                    if callee_decl(ct).endswith("::insert") and "TargetActorHandleSet" in callee_decl(ct) and len(ct["args"]) > 2 and operand_local(ct["args"][2]) in fl2:
-                        kept = True
-                        ctx.ok(f"{lab}/handles-stored", [site(L, cb)])
+                for (B, cb) in stored_in_registry(L, st["lhs"]["local"]):
+                    kept = True
+                    ctx.ok(f"{lab}/handles-stored", [site(B, cb)])
             if not kept:
                 ctx.bad(f"{lab}/handles-stored", [site(L, bb)], "the handle set (which owns the watcher) is not stored in the registry: the watcher is dropped")
 
